@@ -45,7 +45,8 @@ def aggregate(obls):
     out = {}
     for ob in obls:
         a = out.setdefault(ob.name, dict(name=ob.name, verdict='proved', paths=0, time=0.0,
-                                         model=None, line=ob.line, backend='z3', detail=''))
+                                         model=None, line=ob.line, backend='z3', detail='',
+                                         details=[]))
         a['paths'] += 1
         a['time'] += ob.time
         if ob.verdict == 'refuted':
@@ -53,10 +54,13 @@ def aggregate(obls):
                 a['model'] = ob.model
                 a['line'] = ob.line
             a['verdict'] = 'refuted'
-        elif ob.verdict == 'unknown' and a['verdict'] == 'proved':
-            a['verdict'] = 'unknown'
-            a['detail'] = ob.detail
-            a['line'] = ob.line
+        elif ob.verdict == 'unknown':
+            # one query per path the solver left open: a second opinion has to close ALL of them
+            a['details'].append(ob.detail)
+            if a['verdict'] == 'proved':
+                a['verdict'] = 'unknown'
+                a['detail'] = ob.detail
+                a['line'] = ob.line
     return out
 
 
